@@ -51,8 +51,8 @@
     (`Abs.Idx.plan_correct`: the general form — a plan of per-name drop / create / replace steps; Abs/IdxDrop.lean;
     the reference engine keeps every index non-empty and within its table's columns, Proofs/SpecWF.lean.)
 
-  * `equal_column_untouched` — **no column that is equal on both sides is dropped, re-created or modified** (schemas
-    without PRIMARY KEY declarations): if a column of a table present on both sides has the same type and the same
+  * `equal_column_untouched` — **no column that is equal on both sides is dropped, re-created or modified** (column
+    definitions without an inline PRIMARY KEY option): if a column of a table present on both sides has the same type and the same
     options up to order in the two reference schemas, neither `MigrationColumnUp` nor `MigrationColumnDown` of the
     diffed record prints an ADD / DROP / MODIFY COLUMN statement about it (Proofs/Untouched: the first loop of
     `Table.Diff` tags it "no action" because its option comparison agrees with the reference options up to order
@@ -158,10 +158,10 @@ theorem indexes_with_dropped_columns (g : Globals) (hg : g.dialect = .mysql) (hi
           ∃ R, Abs.Idx.execAll (Abs.Idx.prune dc tbO.idxs) (ss.filterMap idxStmt) = some R ∧ R.Perm tbN.idxs) :=
   indexes_with_drops_end_to_end g hg hio rc old new dbO dbN ho hn heo hen d hd t tbO tbN hfo hfn hne
 
-/-- a column equal on both sides gets no column statement, in either direction (MySQL reader model, no PRIMARY KEY) -/
+/-- a column equal on both sides gets no column statement, in either direction (MySQL reader model, no inline PRIMARY KEY option) -/
 theorem equal_column_untouched (g : Globals) (hg : g.dialect = .mysql) (rc : Bool)
     (old new : List Stmt) (dbO dbN : DB) (ho : old.all Stmt.elemSafe = true) (hn : new.all Stmt.elemSafe = true)
-    (hpo : old.all Stmt.plain = true) (hpn : new.all Stmt.plain = true)
+    (hpo : old.all Stmt.plainOpts = true) (hpn : new.all Stmt.plainOpts = true)
     (heo : execAll rc [] old = some dbO) (hen : execAll rc [] new = some dbN)
     (d : Migration) (hd : loadAndDiff g old new = .ok d)
     (t : String) (tbO tbN : TableSpec) (hfo : dbO.find t = some tbO) (hfn : dbN.find t = some tbN)
@@ -179,8 +179,8 @@ def exOldU : List Stmt :=
 def exNewU : List Stmt :=
   [.createTable "t" 0 [{ name := "a", typ := "int(11)", opts := [{ kind := .default, dflt := .num "1" }, { kind := .notNull }] },
                        { name := "b", typ := "varchar(255)" }, { name := "c", typ := "text" }] []]
-example : exOldU.all Stmt.elemSafe = true ∧ exNewU.all Stmt.elemSafe = true ∧ exOldU.all Stmt.plain = true ∧
-    exNewU.all Stmt.plain = true ∧ (execAll true [] exOldU).isSome = true ∧ (execAll true [] exNewU).isSome = true := by decide
+example : exOldU.all Stmt.elemSafe = true ∧ exNewU.all Stmt.elemSafe = true ∧ exOldU.all Stmt.plainOpts = true ∧
+    exNewU.all Stmt.plainOpts = true ∧ (execAll true [] exOldU).isSome = true ∧ (execAll true [] exNewU).isSome = true := by decide
 example : ∃ d, loadAndDiff {} exOldU exNewU = .ok d ∧
     (d.tables.map (fun t => (Table.walkCols {} t.name true [] t.cols).1.map stmtCol)) = [[some "b", some "c"]] :=
   ⟨_, by rfl, by decide⟩
